@@ -2532,3 +2532,93 @@ func ruleErrOverwrite(c *Ctx, r *Rep, tier string) {
 		r.Check(why == "", rule, key, c.Pos(fn.Pos()), fmt.Sprintf("every possibly failing store to Reader.err (%d, callees that leave one included) is read before the field is assigned again", len(srcs)), why)
 	}
 }
+
+// ---- FAILED-CURRENT ------------------------------------------------------------
+//
+// After a failure – the end of the stream included – the Reader's current block
+// is the failed one: it has no data, so Seek's shortcut for "the block I hold"
+// (same base, hasData) is not taken, the slow path runs and re-points the
+// read-ahead goroutine, which the failure has parked. A nextBlock that keeps the
+// previous block when the next one failed (twelfth-round seed C02-n: "so that
+// BlockLen and a Seek back into it keep working after the end") lets a Seek into
+// that block clear the error and the next Read wait on a parked goroutine.
+//
+// Decided in (*Reader).nextBlock: for every (*decompressor).wait() whose error
+// can be the function's result, every path from that call to such a return
+// passes a store of the block the same call returned into Reader.current.
+func ruleFailedCurrent(c *Ctx, r *Rep, tier string) {
+	rule := "FAILED-CURRENT"
+	fn := c.Func("bgzf", "(*Reader).nextBlock")
+	wait := c.Func("bgzf", "(*decompressor).wait")
+	curF := c.Field("bgzf", "Reader", "current")
+	var reach func(v, target ssa.Value, seen map[ssa.Value]bool) bool
+	reach = func(v, target ssa.Value, seen map[ssa.Value]bool) bool {
+		if v == target {
+			return true
+		}
+		if seen[v] {
+			return false
+		}
+		seen[v] = true
+		if p, ok := v.(*ssa.Phi); ok {
+			for _, e := range p.Edges {
+				if reach(e, target, seen) {
+					return true
+				}
+			}
+		}
+		return false
+	}
+	k := 0
+	allInstrs(fn, func(ins ssa.Instruction) {
+		w, ok := ins.(*ssa.Call)
+		if !ok || staticCallee(&w.Call) != wait {
+			return
+		}
+		var blk, errv ssa.Value
+		for _, ref := range *w.Referrers() {
+			if ex, ok := ref.(*ssa.Extract); ok {
+				if ex.Index == 0 {
+					blk = ex
+				} else {
+					errv = ex
+				}
+			}
+		}
+		if errv == nil {
+			return
+		}
+		var rets []*ssa.Return
+		allInstrs(fn, func(x ssa.Instruction) {
+			if rt, ok := x.(*ssa.Return); ok && len(rt.Results) == 1 && reach(retValue(rt, 0), errv, map[ssa.Value]bool{}) {
+				rets = append(rets, rt)
+			}
+		})
+		if len(rets) == 0 {
+			return
+		}
+		k++
+		r.Instance(rule, 1)
+		key := fmt.Sprintf("bgzf.(*Reader).nextBlock#failed-block-current~%d", k)
+		storesIt := func(x ssa.Instruction) bool {
+			st, ok := x.(*ssa.Store)
+			if !ok || blk == nil {
+				return false
+			}
+			fa, ok := st.Addr.(*ssa.FieldAddr)
+			return ok && fieldVarOfAddr(fa) == curF && reach(st.Val, blk, map[ssa.Value]bool{})
+		}
+		why := ""
+		for _, rt := range rets {
+			rt := rt
+			if _, ok := mustPass(locOf(w), func(x ssa.Instruction) bool { return x == ssa.Instruction(rt) }, storesIt, nil); !ok {
+				why = "the error of the wait at " + c.Pos(w.Pos()) + " can be returned at " + c.Pos(rt.Pos()) + " without the block of that result having been made current: the Reader keeps the previous block, with data – a Seek into it takes the shortcut, clears the error, and the next Read waits on a read-ahead goroutine the failure has parked"
+			}
+		}
+		r.Check(why == "", rule, key, c.Pos(w.Pos()), "the failed block is current before its error is returned", why)
+	})
+	if k == 0 {
+		r.Instance(rule, 1)
+		r.Fail(rule, "bgzf.(*Reader).nextBlock#waits", c.Pos(fn.Pos()), "no wait() whose error nextBlock returns: the rule's anchor moved (undecided)")
+	}
+}
